@@ -8,10 +8,9 @@ Fixpoint names (l : alist) : list nat :=
   match l with ANil => [] | ACons a _ rest => a :: names rest end.
 Definition nmemb (a : nat) (l : list nat) : bool := existsb (Nat.eqb a) l.
 
-(* the first condition emitted under a flattened collection must bind the Flatten node for every element:
-   it exists and is not an exists(...) (which keeps one witness per root element only) *)
+(* a nested match on a collection must emit at least one condition (otherwise no member is required: finding C11-e) *)
 Definition head_ok (cs : list tcond) : bool :=
-  match cs with [] => false | TCmp true _ _ _ :: _ => false | _ => true end.
+  match cs with [] => false | _ => true end.
 
 Section Frag.
   Variable C : cmodel.
@@ -39,13 +38,12 @@ Section Frag.
     match c with
     | PLit v => is_some (f_type C oc a) && (f_iter C oc a || negb (is_coll v))
     | PMatch q => fok_pat oc p a q
-    | PAny v => is_some (f_type C oc a) && is_coll v && truthy v
-    | PAll v => is_some (f_type C oc a) && f_iter C oc a && truthy v && match v with VLO _ => true | _ => false end
+    | PAny v => is_some (f_type C oc a) && is_coll v
+    | PAll v => is_some (f_type C oc a) && f_iter C oc a && match v with VLO _ => true | _ => false end
     end.
 
-  (* F11: the pattern is well typed against the class model, keyword names are distinct, no empty value list under
-     match_any / match_all, no nested match on a collection that emits no condition, no match_any as the first
-     condition under a flattened collection, nested types comparable with the declared type *)
+  (* F11: the pattern is well typed against the class model, keyword names are distinct, no nested match on a
+     collection that emits no condition, nested types comparable with the declared type *)
   Definition F11 (T : cls) (l : alist) : bool := fok_alist T PRoot l.
 End Frag.
 
